@@ -206,7 +206,7 @@ iteration order throw `out_of_range` (the source graph is `const`). -/
 theorem C07_subLoop_oor_head (und : Bool) (g : G L) (v : Nat) (rest : List Nat) (f : Nat → Nat) (init : G L)
     (h : ¬ v < g.size) : G.subLoop und g (v :: rest) f init = .threw .oor := by
   unfold G.subLoop
-  simp only [List.foldl_cons, Res.bind, inR_false g v h, Bool.not_false, if_true]
+  simp only [List.foldl_cons, G.subOuterStep, Res.bind, inR_false g v h, Bool.not_false, if_true]
   apply foldl_threw_absorb
   intro b; rfl
 
